@@ -217,35 +217,40 @@ theorem C28_source_shape :
     Gen.Migrate.appliedUpdated = true := by decide
 
 /-- The hypotheses of the generic theorems hold of the shipped files: versions (as the loader parses
-them) positive and strictly increasing in file-name order, all scripts apply in order to an empty schema,
-and the versions are exactly `1..N` (so the legacy seeding lines up). -/
-theorem C28_shipped_table :
-    WellFormed shipped ∧ LegacyAligned shipped ∧ versions shipped = List.range' 1 shipped.length ∧
-      shipped ≠ [] := by
-  refine ⟨?_, ?_, ?_, ?_⟩ <;> decide +kernel
+them) positive and strictly increasing in file-name order, all scripts apply in order to an empty schema. -/
+theorem C28_shipped_table : WellFormed shipped ∧ shipped ≠ [] := by
+  refine ⟨?_, ?_⟩ <;> decide +kernel
+
+/-- The shipped versions are exactly `1..N`, so the legacy seeding `range(1, user_version + 1)` lines up
+with the list for every `user_version ≤ N`. -/
+theorem C28_shipped_contiguous :
+    versions shipped = List.range' 1 shipped.length ∧ LegacyAligned shipped := by
+  refine ⟨?_, ?_⟩ <;> decide +kernel
 
 theorem C28.run_shipped (db : Db) : runMigrations shippedSources db = runOn shipped db := by
   have : Gen.Migrate.defaultPackage = bootstrapPkg := by decide
   simp [runMigrations, shippedSources, runOn, shipped, this]
 
-/-- **C28 for the code as shipped**: `run_migrations(conn)` from every start state. -/
+/-- **C28 for the code as shipped**: `run_migrations(conn)` from every start state: succeeds, final
+schema is the fold of the shipped scripts, every shipped version recorded once, second run is a no-op. -/
 theorem C28_shipped_converges (db : Db) (hr : Reach shipped db) :
     ∃ full, foldMigs [] shipped = some full ∧
       (∃ db', runMigrations shippedSources db = .ok db' ∧ db'.schema = full ∧ db'.hasSM = true ∧
         db'.userVersion = db.userVersion ∧
         (∀ m ∈ shipped, db'.rows.count (bootstrapPkg, m.version) = 1) ∧
-        (db.userVersion ≤ shipped.length → db'.rows = rowsOf bootstrapPkg shipped) ∧
         runMigrations shippedSources db' = .ok db') := by
   have hwf := C28_shipped_table.1
   obtain ⟨db', hrun, hfull, hsm, huv⟩ := C28_converges shipped hwf db hr
-  refine ⟨db'.schema, hfull, db', by rw [run_shipped, hrun], rfl, hsm, huv,
-    C28_each_version_once shipped hwf db db' hr hrun, ?_, ?_⟩
-  · intro hk
-    obtain ⟨full, _, hrun'⟩ := C28_same_final_state shipped hwf C28_shipped_table.2.1 db hr hk
-    have : db' = ⟨true, rowsOf bootstrapPkg shipped, full, db.userVersion⟩ := by
-      simpa using hrun.symm.trans hrun'
-    rw [this]
-  · exact C28_idempotent _ _ _ (by rw [run_shipped, hrun])
+  exact ⟨db'.schema, hfull, db', by rw [run_shipped, hrun], rfl, hsm, huv,
+    C28_each_version_once shipped hwf db db' hr hrun, C28_idempotent _ _ _ (by rw [run_shipped, hrun])⟩
+
+/-- ... and when the start's `user_version` is at most the number of shipped migrations the whole final
+database is the same one: rows `(server, 1..N)` in order. -/
+theorem C28_shipped_same_final_state (db : Db) (hr : Reach shipped db) (hk : db.userVersion ≤ shipped.length) :
+    ∃ full, foldMigs [] shipped = some full ∧ runMigrations shippedSources db =
+      .ok { hasSM := true, rows := rowsOf bootstrapPkg shipped, schema := full, userVersion := db.userVersion } := by
+  rw [run_shipped]
+  exact C28_same_final_state shipped C28_shipped_table.1 C28_shipped_contiguous.2 db hr hk
 
 /-! ## non-vacuity -/
 
